@@ -12,6 +12,7 @@ use crate::{
   managed::{AllocObjResult, AllocateObj, DebugHeap, Trace},
   object::ObjectKind,
   reference::ObjectHandle,
+  utils::fmt_nested,
   value::Value,
   GcHooks,
 };
@@ -293,13 +294,17 @@ impl Display for List {
   fn fmt(&self, f: &mut fmt::Formatter<'_>) -> fmt::Result {
     write!(f, "[")?;
 
-    if let Some((last, rest)) = self.split_last() {
-      for item in rest.iter() {
-        write!(f, "{item}, ")?;
+    fmt_nested(f, self.0.ptr().as_ptr() as usize, |f| {
+      if let Some((last, rest)) = self.split_last() {
+        for item in rest.iter() {
+          write!(f, "{item}, ")?;
+        }
+
+        write!(f, "{last}")?;
       }
 
-      write!(f, "{last}")?;
-    }
+      Ok(())
+    })?;
 
     write!(f, "]")
   }
